@@ -852,9 +852,22 @@ htp_status_t htp_connp_RES_HEADERS(htp_connp_t *connp) {
                 endwithcr = 1;
             } else {
                 // connp->out_next_byte == LF
+
+                // Does this LF complete a CRLF whose CR was the last
+                // byte of the previous chunk (and is now buffered)?
+                int lf_after_buffered_cr = 0;
+                if ((connp->out_buf != NULL) && (connp->out_buf_size > 0) &&
+                    (connp->out_current_read_offset - connp->out_current_consume_offset == 1) &&
+                    (connp->out_buf[connp->out_buf_size - 1] == CR)) {
+                    lf_after_buffered_cr = 1;
+                }
+
                 OUT_PEEK_NEXT(connp);
                 lfcrending = 0;
-                if (connp->out_next_byte == CR) {
+                if (lf_after_buffered_cr) {
+                    // plain CRLF line ending, same as when it arrives in one piece
+                    endwithcr = 1;
+                } else if (connp->out_next_byte == CR) {
                     // hanldes LF-CR sequence as end of line
                     OUT_COPY_BYTE_OR_RETURN(connp);
                     lfcrending = 1;
